@@ -204,7 +204,8 @@ package server
 //@   ensures C06.grant.not-early,C19.grant.not-early: implies(lock.command.TimeoutFlag&0x0100 == 0 && lock.command.ExpriedFlag&0x4000 == 0 && clockSane(self.lockDb), notEarly(lock.expriedTime, self.lockDb.currentTime, lock.command.Expried, lock.command.ExpriedFlag))
 //@   ensures C06.grant.deadline,C19.grant.deadline: implies(lock.command.TimeoutFlag&0x0100 == 0, lock.startTime == self.lockDb.currentTime && lock.expriedTime == i64(expriedDeadline(self.lockDb.currentTime, lock.command)))
 //@   ensures C06.grant.unrenew: implies(lock.command.TimeoutFlag&0x0100 != 0, lock.startTime == old(lock.startTime) && lock.expriedTime == old(lock.expriedTime))
-//@   ensures C07.grant.aoftime: implies(old(self.currentLock) == nil && lock.command.ExpriedFlag&0x1300 == 0x0100, lock.aofTime == 0) && implies(old(self.currentLock) == nil && lock.command.ExpriedFlag&0x1300 == 0x0200, lock.aofTime == 0xff) && implies(old(self.currentLock) != nil, lock.aofTime == old(self.currentLock.aofTime))
+//@   ensures C07.grant.aoftime: implies(old(self.currentLock) == nil && lock.command.ExpriedFlag&0x1300 == 0x0100, lock.aofTime == 0) && implies(old(self.currentLock) == nil && lock.command.ExpriedFlag&0x1300 == 0x0200, lock.aofTime == 0xff)
+//@   ensures C07.grant.own-policy: implies(old(self.currentLock) != nil && lock.command.ExpriedFlag&0x1300 == 0x0100, lock.aofTime == 0) && implies(old(self.currentLock) != nil && lock.command.ExpriedFlag&0x1300 == 0x0200, lock.aofTime == 0xff)
 //@   ensures C11.grant.ack: lock.ackCount == ite(lock.command.Flag&0x04 == 0 && lock.command.TimeoutFlag&0x1000 != 0, 0, old(lock.ackCount))
 //@   ensures lock.manager == old(lock.manager) && lock.command == old(lock.command) && lock.protocol == old(lock.protocol) && lock.timeouted == old(lock.timeouted) && lock.expried == old(lock.expried) && lock.longWaitIndex == old(lock.longWaitIndex) && lock.timeoutTime == old(lock.timeoutTime) && lock.data == old(lock.data)
 //@   assumes implies(old(lock.locked) == 0, refDisciplineExcept(lock))
